@@ -107,6 +107,7 @@ def _spec_functions(h):
 def _summaries(sp, with_callback):
     """contracts of the callees of _Step that are not part of the generation loop"""
     def process_inputs(I, c, args, kwargs):
+        I.st.heap[sp['GH']]['settings_processed'] = True
         d = {}
         if with_callback:
             d['callback'] = sp['CALLBACK']
@@ -114,6 +115,9 @@ def _summaries(sp, with_callback):
         return I.st.alloc('dict', d)
 
     def bootstrap(I, c, args, kwargs):
+        # keyword settings of this very Step (constraints=, penalty=, monitors) must be in force for its evaluations
+        I.st.check('C03/step-settings-processed-before-the-objective-is-bootstrapped',
+                   I.st.heap[sp['GH']].get('settings_processed', False) is True)
         return sp['COST']
 
     def nothing(I, c, args, kwargs):
